@@ -1,11 +1,15 @@
 import TextxVerif.Wire
 import TextxVerif.Resolve
+import TextxVerif.ResolveQuery
 /-! Driver for the resolver loop model (C08, C09).
 ops:
   {"op":"loop","refs":[id…],"deps":[[id,[id…]]…]}  → {"pending":[…],"seq":[…]}
   {"op":"list","seq":[[id,pos,tgt]…]}               → {"list":[tgt…]}
   {"op":"resolve","refs":[id…],"deps":[…],"lists":[[[id,pos]…]…]}
         → {"pending":[…],"seq":[…],"lists":[[id…]…]}   loop + content of every list attribute (C09)
+  {"op":"resolveq","files":[[[id,obj,attr]…]…],"waits":[[id,[WAIT…]]…],"lists":[…]}   (C09)
+        WAIT = [0,id] (attribute value) | [1,file,obj,attr] | [2,file,obj] (needs_to_be_resolved)
+        → {"pending":[…],"seq":[…],"lists":[[id…]…]}   providers that ask the resolver: loopQ
 -/
 open Lean Wire Resolve
 
@@ -45,6 +49,33 @@ def parseAttrs (a : Array Json) : Option (List (List LRef)) :=
       | [i, p] => pure { id := i, pos := p, tgt := i }
       | _ => none
 
+def parseCRefs (a : Array Json) : Option (List (List CRef)) :=
+  a.toList.mapM fun e => do
+    let xs ← asArr? e
+    xs.toList.mapM fun x => do
+      match ← asNatList? x with
+      | [i, o, t] => pure { id := i, obj := o, attr := t }
+      | _ => none
+
+def parseWait (j : Json) : Option Wait := do
+  match ← asNatList? j with
+  | [0, d] => pure (.val d)
+  | [1, f, o, a] => pure (.qry f o (some a))
+  | [2, f, o] => pure (.qry f o none)
+  | _ => none
+
+def parseWaits (a : Array Json) : Option (List (Nat × List Wait)) :=
+  a.toList.mapM fun e => do
+    let xs ← asArr? e
+    let id ← asNat? (← xs[0]?)
+    let ws ← (← asArr? (← xs[1]?)).toList.mapM parseWait
+    pure (id, ws)
+
+def waitsOf (tbl : List (Nat × List Wait)) (r : Nat) : List Wait :=
+  match tbl.find? (·.1 = r) with
+  | some (_, ws) => ws
+  | none => []
+
 def handle (j : Json) : Json :=
   match getStr? j "op" with
   | some "loop" =>
@@ -59,6 +90,14 @@ def handle (j : Json) : Json :=
       let (p, res) := loop (tableProvider tbl) (refs.length + 1) refs []
       let seq := res.reverse
       Json.mkObj [("pending", toJson p), ("seq", toJson seq),
+                  ("lists", toJson (attrs.map fun L => (attrAfter L seq).map (·.tgt)))]
+    | _, _, _ => badOp
+  | some "resolveq" =>
+    match (getArr? j "files").bind parseCRefs, (getArr? j "waits").bind parseWaits, (getArr? j "lists").bind parseAttrs with
+    | some files, some tbl, some attrs =>
+      let (fs, res) := loopQ (waitsOf tbl) (pendingCount files + 1) files []
+      let seq := res.reverse
+      Json.mkObj [("pending", toJson (idsOf fs)), ("seq", toJson seq),
                   ("lists", toJson (attrs.map fun L => (attrAfter L seq).map (·.tgt)))]
     | _, _, _ => badOp
   | some "list" =>
